@@ -6,6 +6,8 @@ from vlib import *
 from props.gdscommon import *
 
 HARNESS_BINS = ["c01"]
+# lemma files whose Qed-closed obligations belong to this property (Properties/C01.v holds the theorems)
+PROOF_FILES = ["Gds/GdsBytes_proofs.v", "Gds/GdsWrite_proofs.v", "Gds/GdsWFits_proofs.v", "Gds/GdsWTables_proofs.v", "Gds/GdsRtUnfold_proofs.v", "Gds/GdsRtRead_proofs.v", "Gds/GdsRoundtrip_proofs.v", "Gds/GdsRtSpec_proofs.v", "Gds/GdsRtStrip_proofs.v"]
 CLASS_NUL = "gds-string-even-len-trailing-nul"
 
 def gen_cases(chk):
